@@ -31,6 +31,26 @@ Theorem C18_ren_hypothesis : forall xtd ctxfound raw s,
 Proof. exact dr_of_perm. Qed.
 Print Assumptions C18_ren_hypothesis.
 
+(* the hypothesis cm_ok, discharged by evaluation: `tr` is the list of answers of rset_find that
+   harness/probe_ren.c recorded for a line, raw_of tr the matcher the model is run with.  If the
+   executable check matcher_ok s tr returns true -- the driver evaluates it on every case of the
+   correspondence run and reports MATCHER-NOT-OK otherwise -- then cm_ok holds for that matcher, and
+   the reordering of the line terminates, is a permutation and keeps the terminator last with no
+   hypothesis left *)
+Theorem C18_matcher_checked : forall s tr N,
+  matcher_ok s tr = true -> cm_ok (dir_match s (uc_chop s) (raw_of tr)) N.
+Proof. exact matcher_checked. Qed.
+Print Assumptions C18_matcher_checked.
+
+Theorem C18_permutation_checked : forall s xtd ctxfound tr,
+  matcher_ok s tr = true ->
+  exists ord, dir_reorder s xtd ctxfound (raw_of tr) (seq 0 (uc_slen s)) = Some ord /\
+    Permutation ord (seq 0 (uc_slen s)) /\
+    (((0 <? uc_slen s)%nat && (nthb s (nth (uc_slen s - 1) (uc_chop s) 0%nat) =? 10)%N = true) ->
+     nth (uc_slen s - 1) ord 0%nat = (uc_slen s - 1)%nat).
+Proof. exact dir_reorder_checked. Qed.
+Print Assumptions C18_permutation_checked.
+
 (* termination: when every match is in bounds and non-empty the loop and its recursion finish
    within the fuel dir_reorder passes (out-of-fuel is unreachable) *)
 Theorem C18_terminates : forall s xtd ctxfound raw ord0,
@@ -119,5 +139,9 @@ Example C18_nonvacuous :
   cm_ok (fun _ _ _ => None) 8 /\
   dir_reorder [97; 32; 216; 179; 217; 132; 216; 167; 217; 133; 32; 98]%N 0%Z (-2)%Z
     (fun b _ _ _ => if (b =? 0)%nat then Some (1%nat, [2; 10; -1; -1]%Z) else None) (seq 0 8)
-  = Some [0; 1; 5; 4; 3; 2; 6; 7]%nat.
-Proof. split; [intros b e d m _ _ H; discriminate | vm_compute; reflexivity]. Qed.
+  = Some [0; 1; 5; 4; 3; 2; 6; 7]%nat /\
+  matcher_ok [97; 32; 216; 179; 217; 132; 216; 167; 217; 133; 32; 98]%N
+    [(0, 8, 1%Z, Some (1, [2; 10; -1; -1]%Z)); (6, 8, 1%Z, None)]%nat = true /\
+  matcher_ok [97; 32; 216; 179; 217; 132; 216; 167; 217; 133; 32; 98]%N       (* an empty match is rejected *)
+    [(0, 8, 1%Z, Some (1, [0; 0; -1; -1]%Z))]%nat = false.
+Proof. split; [intros b e d m _ _ H; discriminate | vm_compute; repeat split; reflexivity]. Qed.
